@@ -11,11 +11,11 @@ RULE = ("four case kinds: new (valid grid tuples in int/float/bool representatio
         "non-preset; distinct by JSON")
 TRUSTED = ["Lean 4 kernel", "axioms: propext, Classical.choice, Quot.sound (audited per theorem)",
            "hand translation of scoringscheme.py (constructor, __mul__, __is_equivalent_to_generic, get_nickname)",
-           "harness encoding / Lean driver parser", "float64 exact on the dyadic penalty grid; NaN/inf outside the model"]
+           "harness encoding / Lean driver parser", "float64 exact on the dyadic penalty grid; NaN / inf are separate constructors of the model's Python values (refused as non real)"]
 ASSUMPTIONS = ["penalties and multipliers are dyadic rationals (float division of equal ratios is exact enough: "
                "equal rationals give equal floats; distinct small-grid ratios give distinct floats)"]
 
-T_LIST, T_INT, T_FLOAT, T_BOOL, T_NONE, T_STR, T_OTHER = range(7)
+T_LIST, T_INT, T_FLOAT, T_BOOL, T_NONE, T_STR, T_OTHER, T_NAN, T_INF = range(9)
 
 
 def budget(tier):
@@ -70,7 +70,14 @@ def gen(rng, index, tier):
                 vec[i] = rng.choice([[T_INT, -1], [T_FLOAT, -1], [T_FLOAT, -scale * 3]])
             elif m == "type" and vec:
                 i = rng.randrange(len(vec))
-                vec[i] = rng.choice([[T_NONE], [T_STR], [T_BOOL, 1], [T_BOOL, 0], [T_LIST, []], [T_OTHER]])
+                vec[i] = rng.choice([[T_NONE], [T_STR], [T_BOOL, 1], [T_BOOL, 0], [T_LIST, []], [T_OTHER], [T_NAN], [T_NAN],
+                                     [T_INF]])
+                if vec[i][0] in (T_NAN, T_INF) and rng.random() < 0.5 and len(vec) == 6:
+                    # put it where a comparison with NaN would let it through: B[0] > 0, B[1] == 0, T[2] > 0
+                    special = vec[i]
+                    vec[i] = [T_FLOAT, 0] if i in (0, 2) else [T_FLOAT, scale]
+                    j = rng.choice([0, 1]) if vec is pb else 2
+                    vec[j] = special
             elif m == "len":
                 if rng.random() < 0.5 and vec:
                     vec.pop(rng.randrange(len(vec)))
@@ -90,7 +97,7 @@ def gen(rng, index, tier):
         kd = rng.choice([1, 2, 4])
         k = rng.choice([["num", rng.randint(1, 12), kd], ["num", rng.randint(1, 12), kd], ["num", 0, 1],
                         ["num", -rng.randint(1, 5), kd], ["int", rng.randint(1, 5)], ["int", 0], ["int", -2],
-                        ["bool", 1], ["none"], ["str"]])
+                        ["bool", 1], ["none"], ["str"], ["nan"], ["inf"]])
         return {"kind": kind, "scheme": sch, "k": k}
     if kind == "equiv":
         b = list(sch["b"])
@@ -169,6 +176,10 @@ def _build(tree, scale):
         return None
     if tag == T_STR:
         return "1"
+    if tag == T_NAN:
+        return float("nan")
+    if tag == T_INF:
+        return float("inf")
     return (0.0, 1.0)
 
 
@@ -229,6 +240,8 @@ def impl(case):
                 kv, kd = True, 1
             elif k[0] == "none":
                 kv, kd = None, 1
+            elif k[0] in ("nan", "inf"):
+                kv, kd = float(k[0]), 1
             else:
                 kv, kd = "2", 1
             left = _res(lambda: sch * kv, case["scheme"]["scale"] * kd)
@@ -273,6 +286,8 @@ def ops(case, out):
             kk = [k[1]]
         elif k[0] == "bool":
             kk = [1]
+        elif k[0] in ("nan", "inf"):
+            return [("c19.mulnf", lib.scheme_tree(sch))]
         else:
             kk = []
         return [("c19.mul", [lib.scheme_tree(sch), kk])]
